@@ -159,6 +159,9 @@ pub fn main(args: &[String]) -> i32 {
     let replay_dir = a.get("replays").unwrap_or("/verif/replays").to_string();
     let regress_dir = a.get("regress").map(|s| s.to_string());
     let do_minimize = a.u64("minimize", 1) == 1;
+    // signatures of listed known findings: their witnesses are in regress/ already, minimizing
+    // them again in every shard only costs time
+    let no_minimize: BTreeSet<String> = a.get("known").map(|s| s.split(',').map(|x| x.to_string()).collect()).unwrap_or_default();
     let profile = Profile::for_property(&prop);
     let start = Instant::now();
     let deadline = start + Duration::from_secs(secs);
@@ -214,7 +217,7 @@ pub fn main(args: &[String]) -> i32 {
                 } else {
                     format!("viol:{prop}:{sig}")
                 };
-                let actions = if do_minimize && failure_signature(&r).as_deref() == Some(full_sig.as_str()) && Instant::now() < deadline + Duration::from_secs(60) {
+                let actions = if do_minimize && !no_minimize.contains(&sig) && failure_signature(&r).as_deref() == Some(full_sig.as_str()) && Instant::now() < deadline + Duration::from_secs(60) {
                     minimize(r.actions.clone(), &profile, &full_sig)
                 } else {
                     r.actions.clone()
